@@ -555,9 +555,11 @@ func (s *server) processPart(session *syncSession, req *clusterv1.SyncPartReques
 			continue
 		}
 
-		fileEndOffset := fileInfo.Offset + fileInfo.Size
+		// Offset and Size come from the wire: add them in 64 bits, a uint32 sum can wrap below
+		// the chunk length and turn the slice expression below into [Offset:smaller].
+		fileEndOffset := uint64(fileInfo.Offset) + uint64(fileInfo.Size)
 		actualFileSize := fileInfo.Size
-		if fileEndOffset > uint32(len(req.ChunkData)) {
+		if fileEndOffset > uint64(len(req.ChunkData)) {
 			actualFileSize = uint32(len(req.ChunkData)) - fileInfo.Offset
 		}
 
